@@ -10,8 +10,11 @@ def run(tier, seed):
     res.assumptions = list(EC.ASSUMPTIONS) + [
         "KeyboardInterrupt is injected where CPython delivers it to a thread blocked in or entering a threading primitive "
         "(lock acquire, Condition.wait, Thread.start/join), except inside Condition.wait's internal re-acquire (stdlib fragility)",
-        "reading of 'no further call is started': once the calling thread has run its clean-up up to its first blocking "
-        "point, each idle worker starts at most one more call (the dispatch it had already committed to)",
+        "reading of 'no further call is started': once the calling thread has set the engine's stop flag (observed as the first "
+        "lock it takes after the interrupt), each worker that is neither executing a call nor blocked inside queue.get starts "
+        "at most one more call (the dispatch it had already committed to); workers inside queue.get start none",
+        "Thread.ident is None until Thread.start returned or the new thread ran (CPython): an interrupt inside start() leaves "
+        "a worker that nobody can join; it only has to exit eventually",
     ]
     if tier == "quick":
         variants = [dict(N=3, maxw=2, configs="ConfigsNoFail", intr=True), dict(N=2, maxw=2, configs="ConfigsFull", intr=True, spawn=True)]
